@@ -138,7 +138,7 @@ def _kernel_cases(tier):
                     skipped += 1
                     continue
                 for order in ("sorted", "unsorted") if n > 1 else ("sorted",):
-                    for v in range(nvals):
+                    for v in range(nvals if (order == "sorted" or tier == "thorough") else 1):
                         out.append({"kind": "kernel", "kernel": kern, "supports": list(idx), "order": order, "values": v, "tier": tier})
     return out, skipped
 
@@ -757,7 +757,7 @@ def _run_labelwise(case, r):
         het = darsia.HeterogeneousModel(darsia.KernelInterpolation(darsia.GaussianKernel(gamma=kern[1])), limg)
         for i, lab in enumerate(uniq):
             het[lab].update(supports=np.array(sup_sets[i]), values=np.array(val_sets[i]))
-        for a0 in sigs[:3]:
+        for a0 in sigs[: 2 if tier == "quick" else 4]:
             a = np.stack([a0, np.roll(a0.ravel(), 1).reshape(shape), 0.5 * a0], axis=-1)
             got = _apply(r, cell, het, "rgb", a)
             if got is None:
